@@ -1,4 +1,4 @@
 SPECIFICATION Spec
-CONSTANTS MaxLen = 5 CopyOnCompute = TRUE
+CONSTANTS MaxLen = 5 CopyOnCompute = "each"
 INVARIANT Emitted
 CHECK_DEADLOCK FALSE
